@@ -25,6 +25,8 @@ Positions(r) ==
       <<"value",     L(<<DMap1("mov", L(<<DMap1("$deref", DMap(<<DPair("main_reg", S(r))>>))>>))>>)>>,
       <<"key_body",  L(<<DMap1(r, L(<<S("%rax")>>))>>)>>,
       <<"key_times", L(<<DMap1(r, DMap1("times", DInt(2)))>>)>>,
+      \* the same after an item that is itself a mapping with operands (not the first mapping of the rule)
+      <<"key_times_second", L(<<DMap1("push", L(<<S("%rbx")>>)), DMap1(r, DMap1("times", DInt(2)))>>)>>,
       <<"in_or",     L(<<DMap1("$or", L(<<S(r), S("ret")>>))>>)>>,
       <<"in_not",    L(<<DMap1("$not", L(<<S(r)>>)), S("ret")>>)>>,
       <<"second",    L(<<S("ret"), S(r)>>)>> }
